@@ -7,19 +7,19 @@ TABLE = {
         ('peer', 'bit position < 8: the position restarts for every byte (C01/R01.13, C03/R03.7)'),
     '<rodbus::client::requests::write_multiple::WriteMultipleIterator<T> as core::iter::traits::iterator::Iterator>::next | assert | Overflow:Add(*self.pos, 1)':
         ('peer', 'pos < range.count <= 65535 here (the pos == count guard returned None before), so pos + 1 fits u16'),
-    '<rodbus::client::requests::write_multiple::WriteMultipleIterator<T> as core::iter::traits::iterator::Iterator>::next | assert | Overflow:Add(*self.range.start, *self.pos)':
+    '<rodbus::client::requests::write_multiple::WriteMultipleIterator<T> as core::iter::traits::iterator::Iterator>::next | assert | Overflow:Add(*self.pos, *self.range.start)':
         ('peer', 'AddressRange::try_from guarantees start + (count - 1) <= 65535 and pos < count here (C01/R01.5: AddressRange is constructed only by try_from)'),
     '<rodbus::client::requests::write_multiple::WriteMultipleIterator<T> as core::iter::traits::iterator::Iterator>::size_hint | assert | Overflow:Sub(*self.range.count, *self.pos)':
         ('peer', 'invariant pos <= range.count: pos starts at 0, grows by 1 per yielded item and next() stops at pos == count'),
     '<rodbus::retry::Doubling as rodbus::retry::RetryStrategy>::after_failed_connect | arith-trait | <u32 as core::ops::arith::Mul<core::time::Duration>>::mul(2, *self.current)':
         ('config', '2 * current delay: current <= configured max delay (configuration; overflows only for max > Duration::MAX / 2)'),
-    '<rodbus::server::response::BitWriter<T> as rodbus::common::traits::Serialize>::serialize | assert | Overflow:Add(var:usize, 1)':
+    '<rodbus::server::response::BitWriter<T> as rodbus::common::traits::Serialize>::serialize | assert | Overflow:Add(1, var:usize)':
         ('peer', 'num_bits is reset to 0 when it reaches 8 (C01/R01.13)'),
     '<rodbus::server::response::BitWriter<T> as rodbus::common::traits::Serialize>::serialize | assert | Overflow:Shl(1, var:usize)':
         ('peer', 'bit position < 8: the position restarts for every byte (C01/R01.13, C03/R03.7)'),
     '<rodbus::types::BitIterator as core::iter::traits::iterator::Iterator>::next | assert | Overflow:Add(*self.pos, 1)':
         ('peer', 'pos < range.count <= 65535 here (the pos == count guard returned None before), so pos + 1 fits u16'),
-    '<rodbus::types::BitIterator as core::iter::traits::iterator::Iterator>::next | assert | Overflow:Add(*self.range.start, *self.pos)':
+    '<rodbus::types::BitIterator as core::iter::traits::iterator::Iterator>::next | assert | Overflow:Add(*self.pos, *self.range.start)':
         ('peer', 'AddressRange::try_from guarantees start + (count - 1) <= 65535 and pos < count here (C01/R01.5: AddressRange is constructed only by try_from)'),
     '<rodbus::types::BitIterator as core::iter::traits::iterator::Iterator>::size_hint | assert | Overflow:Sub(*self.range.count, *self.pos)':
         ('peer', 'invariant pos <= range.count: pos starts at 0, grows by 1 per yielded item and next() stops at pos == count'),
@@ -37,7 +37,7 @@ TABLE = {
         ('peer', 'invariant begin <= end: read()/read_u8() advance begin only after checking len() >= n, read_some() only grows end or rebases both (C05/R05.6 restricts the writers)'),
     'rodbus::common::buffer::ReadBuffer::peek_at | assert | Overflow:Add(*self.begin, idx)':
         ('peer', 'usize arithmetic on indices bounded by the 260-byte buffer (begin <= end <= 260; idx and count are checked against len() or are small constants plus one received byte)'),
-    'rodbus::common::buffer::ReadBuffer::peek_at | assert | Overflow:Add(idx, 1)':
+    'rodbus::common::buffer::ReadBuffer::peek_at | assert | Overflow:Add(1, idx)':
         ('peer', 'usize arithmetic on indices bounded by the 260-byte buffer (begin <= end <= 260; idx and count are checked against len() or are small constants plus one received byte)'),
     'rodbus::common::buffer::ReadBuffer::read | assert | Overflow:Add(*self.begin, count)':
         ('peer', 'usize arithmetic on indices bounded by the 260-byte buffer (begin <= end <= 260; idx and count are checked against len() or are small constants plus one received byte)'),
@@ -73,23 +73,23 @@ TABLE = {
         ('config', 'serial timing from the configured baud rate (configuration; note O2: a baud rate of 0 divides by zero - not peer input)'),
     'rodbus::common::phys::calculate_inter_character_delay | arith-trait | <u32 as core::ops::arith::Mul<core::time::Duration>>::mul(35, Div<u32>>::div())':
         ('config', 'serial timing from the configured baud rate (configuration; note O2: a baud rate of 0 divides by zero - not peer input)'),
-    'rodbus::common::serialize::calc_bytes_for_bits | assert | Overflow:Add(Div(num_bits, 8), 1)':
+    'rodbus::common::serialize::calc_bytes_for_bits | assert | Overflow:Add(1, Div(num_bits, 8))':
         ('peer', 'num_bits / 8 + 1 on usize: num_bits is a u16 count or the length of an in-memory slice'),
     'rodbus::common::serialize::calc_bytes_for_registers | assert | Overflow:Mul(2, num_registers)':
         ('peer', '2 * n on usize: n is a u16 count or the length of a slice of at most 65535 registers (WriteMultiple::from)'),
-    'rodbus::serial::frame::RtuParser::parse | assert | Overflow:Add(*self.state.as ReadToOffsetForLength.1, (ReadBuffer::peek_at() as usize))':
+    'rodbus::serial::frame::RtuParser::parse | assert | Overflow:Add((ReadBuffer::peek_at() as usize), *self.state.as ReadToOffsetForLength.1)':
         ('peer', 'usize sums of FUNCTION_CODE_LENGTH (1), CRC_LENGTH (2), the length_mode constants (<= 5) and one received byte (<= 255)'),
-    'rodbus::serial::frame::RtuParser::parse | assert | Overflow:Add(Add(FUNCTION_CODE_LENGTH, *self.state.as ReadFullBody.1), CRC_LENGTH)':
+    'rodbus::serial::frame::RtuParser::parse | assert | Overflow:Add(2, Add(*self.state.as ReadFullBody.1, 1))':
         ('peer', 'usize sums of FUNCTION_CODE_LENGTH (1), CRC_LENGTH (2), the length_mode constants (<= 5) and one received byte (<= 255)'),
-    'rodbus::serial::frame::RtuParser::parse | assert | Overflow:Add(FUNCTION_CODE_LENGTH, *self.state.as ReadFullBody.1)':
+    'rodbus::serial::frame::RtuParser::parse | assert | Overflow:Add(*self.state.as ReadFullBody.1, 1)':
         ('peer', 'usize sums of FUNCTION_CODE_LENGTH (1), CRC_LENGTH (2), the length_mode constants (<= 5) and one received byte (<= 255)'),
-    'rodbus::serial::frame::RtuParser::parse | assert | Overflow:Add(FUNCTION_CODE_LENGTH, *self.state.as ReadToOffsetForLength.1)':
+    'rodbus::serial::frame::RtuParser::parse | assert | Overflow:Add(*self.state.as ReadToOffsetForLength.1, 1)':
         ('peer', 'usize sums of FUNCTION_CODE_LENGTH (1), CRC_LENGTH (2), the length_mode constants (<= 5) and one received byte (<= 255)'),
     'rodbus::serial::frame::format_rtu_pdu | unwrap | unwrap(WriteCursor::get())':
         ('local', 'cursor.get(start_frame..end_pdu_body): both are positions this function obtained from the same cursor, start first'),
     'rodbus::server::task::SessionTask::handle_frame::{closure#0} | unwrap | unwrap(Mutex::lock())':
         ('peer', "poisoned only if a panic happened under the handler lock: rodbus code under the lock is covered by this inventory; a panicking application handler is the application's"),
-    'rodbus::tcp::frame::format_mbap | assert | Overflow:Add(Sub(WriteCursor::position(), WriteCursor::position()), 1)':
+    'rodbus::tcp::frame::format_mbap | assert | Overflow:Add(1, Sub(WriteCursor::position(), WriteCursor::position()))':
         ('local', 'end_pdu - start_pdu + 1: cursor positions taken in that order (monotone), bounded by the 260-byte buffer'),
     'rodbus::tcp::frame::format_mbap | assert | Overflow:Sub(WriteCursor::position(), WriteCursor::position())':
         ('local', 'end_pdu - start_pdu + 1: cursor positions taken in that order (monotone), bounded by the 260-byte buffer'),
@@ -99,6 +99,6 @@ TABLE = {
         ('local', 'self.rx.recv() cannot yield None while self.tx (a Sender kept in the same struct) is alive'),
     'rodbus::tcp::server::SessionTracker::get_next_id | assert | Overflow:Add(*self.id, 1)':
         ('peer', 'u128 session counter + 1 per accepted connection'),
-    'rodbus::types::RegisterIterator::collect_vec | assert | Overflow:Add(self.range.start, (Iterator>::next(). as u16))':
+    'rodbus::types::RegisterIterator::collect_vec | assert | Overflow:Add((Iterator>::next(). as u16), self.range.start)':
         ('peer', 'AddressRange::try_from guarantees start + (count - 1) <= 65535 and pos < count here (C01/R01.5: AddressRange is constructed only by try_from)'),
 }
